@@ -6,13 +6,11 @@ From ZV Require Import Model.Pkg Model.PkgSpec Proofs.PkgProofs.
 Open Scope Z_scope.
 
 (* ---- 1. the path walk of the code is the visibility specification: every heap (any nesting,
-        aliasing, cyclic scope chains), every path length, read and write, no depth bound.
-        Hypothesis: the walk does not enter a package from a hash reached by a second or later hop
-        of one hash walk (crosses = false); the unconditional statement is refuted in 4. ---- *)
+        aliasing, cyclic scope chains, any mix of package and hash hops), every path length,
+        read and write, no depth bound ---- *)
 Theorem path_walk_is_visible : forall is_upper fuel h pn sc path ret setv,
   path <> [] -> names_ok path ->
   stack_walk is_upper fuel h true pn sc path 0 ret setv <> Err EFuel ->
-  crosses is_upper h (CPkg pn sc) path 0 = false ->
   verdict_of (stack_walk is_upper fuel h true pn sc path 0 ret setv)
     = visible is_upper h (CPkg pn sc) path setv.
 Proof. exact PkgProofs.path_walk_is_visible. Qed.
@@ -21,7 +19,6 @@ Print Assumptions path_walk_is_visible.
 Theorem hash_walk_is_visible : forall is_upper fuel h id path ret setv,
   path <> [] -> names_ok path ->
   hash_walk is_upper fuel h id path 0 ret setv <> Err EFuel ->
-  crosses is_upper h (CHash id) path 0 = false ->
   verdict_of (hash_walk is_upper fuel h id path 0 ret setv)
     = visible is_upper h (CHash id) path setv.
 Proof. exact PkgProofs.hash_walk_is_visible. Qed.
@@ -37,7 +34,7 @@ Print Assumptions walk_fuel_enough.
 
 (* whole dot paths (first part an ordinary variable), any lexical context, no fuel side condition *)
 Theorem dot_path_is_visible : forall is_upper h frame stack path setv,
-  names_ok path -> path_crosses is_upper h frame stack path = false ->
+  names_ok path ->
   verdict_of (dot_get_set is_upper h frame stack path setv) = spec_path is_upper h frame stack path setv.
 Proof. exact PkgProofs.dot_path_is_visible. Qed.
 Print Assumptions dot_path_is_visible.
@@ -83,17 +80,12 @@ Theorem inside_sees_enclosing : forall is_upper h params args clos n v s,
 Proof. exact PkgProofs.inside_sees_enclosing. Qed.
 Print Assumptions inside_sees_enclosing.
 
-(* ---- 4. the unconditional refinement is FALSE of the faithful model (finding hash-pkg-dotpaths1):
-        h2.N.P.Pub with (def h2 (hash N:(hash P:pk))) — every hop public, the code says "not a record" ---- *)
-Theorem walk_is_visible_unconditional_refuted :
-  exists h frame stack path,
-    names_ok path /\
-    verdict_of (dot_get_set ascii_upper h frame stack path None) = NotRecord /\
-    spec_path ascii_upper h frame stack path None = Allowed h (VInt 1).
-Proof. exact PkgProofs.walk_is_visible_unconditional_refuted. Qed.
-Print Assumptions walk_is_visible_unconditional_refuted.
+(* ---- 4. non-vacuity ---- *)
+Example ex_package_in_nested_hash :
+  run_op ascii_upper demo_heap (OpGet [n_h2; n_N; n_P; n_Pub]) = Ok (demo_heap, VInt 1) /\
+  run_op ascii_upper demo_heap (OpGet [n_h2; n_N; n_P; n_priv]) = Err (EPriv n_priv n_pk).
+Proof. exact PkgProofs.ex_package_in_nested_hash. Qed.
 
-(* ---- 5. non-vacuity ---- *)
 Example ex_read_public :
   run_op ascii_upper demo_heap (OpGet [n_pk; n_Pub]) = Ok (demo_heap, VInt 1).
 Proof. exact PkgProofs.ex_read_public. Qed.
